@@ -1,0 +1,14 @@
+//go:build verif
+
+// Contracts for package nscore, read by /verif's VC generator (govc). Comment-only.
+package nscore
+
+// the `eval` builtin registered by Load / LoadInput: a Func literal that is not wrapped by
+// the reflective binder, so it must satisfy the Func.Fn contract (never panics) itself.
+//@ func Load$1(ctx, a) (r, e)
+//@   requires validEnvVal(env)
+//@   panics never
+
+//@ func LoadInput$1(ctx, a) (r, e)
+//@   requires validEnvVal(env)
+//@   panics never
